@@ -423,15 +423,21 @@ class set:
             self.config = config
             self._record = []
 
-            if arg is not None:
-                for key, value in arg.items():
-                    key = check_deprecations(key)
-                    self._assign(key.split("."), value, config)
-            if kwargs:
-                for key, value in kwargs.items():
-                    key = key.replace("__", ".")
-                    key = check_deprecations(key)
-                    self._assign(key.split("."), value, config)
+            try:
+                if arg is not None:
+                    for key, value in arg.items():
+                        key = check_deprecations(key)
+                        self._assign(key.split("."), value, config)
+                if kwargs:
+                    for key, value in kwargs.items():
+                        key = key.replace("__", ".")
+                        key = check_deprecations(key)
+                        self._assign(key.split("."), value, config)
+            except BaseException:
+                # A failing assignment must not leave the earlier ones applied:
+                # nobody holds this object, so nobody could roll them back.
+                self.__exit__(None, None, None)
+                raise
 
     def __enter__(self):
         return self.config
